@@ -97,6 +97,21 @@ Theorem C08_discards_vs_moves_every_schedule : forall ks sched,
 Proof. exact HandoffCompose.discards_miss_nothing. Qed.
 Print Assumptions C08_discards_vs_moves_every_schedule.
 
+(* The same protocol guards the consumer list: a SUB in progress (Channel.AddClient follows the
+   movers' discipline in the CURRENT source) against the close or the deletion of its channel,
+   ANY number of them, ANY interleaving: a subscriber answered OK is among the consumers the
+   channel closes - never left attached to a dead channel. *)
+Theorem C08_subscriber_closed_or_refused_every_schedule : forall ks sched m (del : bool),
+  forallb HandoffProofs.locked ks = true ->
+  In m (Handoff.movers (Handoff.run (Handoff.init ks (HandoffSrc.channel_closer_clients (HandoffSrc.path_of del CoreShape.shape_Channel_exit))) sched)) ->
+  Handoff.lost (Handoff.run (Handoff.init ks (HandoffSrc.channel_closer_clients (HandoffSrc.path_of del CoreShape.shape_Channel_exit))) sched) m = false.
+Proof. exact HandoffCompose.subscriber_closed_or_refused. Qed.
+Print Assumptions C08_subscriber_closed_or_refused_every_schedule.
+
+Theorem C08_addclient_follows_the_protocol : HandoffSrc.channel_mover CoreShape.shape_Channel_AddClient = true.
+Proof. exact HandoffSrc.src_addclient_locked. Qed.
+Print Assumptions C08_addclient_follows_the_protocol.
+
 (* not vacuous: an Empty that takes no lock (the source before 00776ee) is refuted *)
 Theorem C08_unlocked_empty_refuted :
   exists sched, let st := Handoff.run (Handoff.init [Handoff.Move] [Handoff.FDiscard]) sched in
